@@ -1,5 +1,149 @@
-(* C05 - placeholder until Proofs/BlueprintFacts.v is in place: the naming theorems of Base/Names.v. *)
-From BB Require Import Base.Names.
-Theorem C05_names_distinct : forall l, List.NoDup (uniquify l).
+(* C05 - segment names stay unique; name-addressed edits touch only their target.
+   Only statements here; every proof is `exact <lemma>` into Proofs/BlueprintFacts.v. *)
+From Coq Require Import String List ZArith QArith Bool.
+From BB Require Import Base.Names Base.PyList Model.Types Model.Blueprint Model.Element Model.PyVal Model.Interp
+  Proofs.BlueprintFacts.
+Import ListNotations.
+
+(* 1. naming: pairwise distinct, and the k-th segment sharing a base is base / base ++ str(k) *)
+Theorem C05_names_distinct : forall l, NoDup (uniquify l).
 Proof. exact uniquify_NoDup. Qed.
+
+Theorem C05_kth_occurrence : forall l i b,
+  nth_error (map basename l) i = Some b ->
+  nth_error (uniquify l) i = Some (mk b (S (count b (firstn i (map basename l))))).
+Proof. exact uniquify_kth. Qed.
+
+(* 2. the invariant: six parallel lists of equal length, names canonical *)
+Theorem C05_inv_empty : Inv bp_empty.
+Proof. exact Inv_empty. Qed.
+
+(* for every history over the blueprint alphabet (any registers, any interleaving of insert / remove /
+   changeArg / changeDuration / set+removeSegmentMarker / setSR / markers / copy / + and observations),
+   every blueprint in the store satisfies the invariant, hence has pairwise distinct canonical names *)
+Theorem C05_inv_reachable : forall prog st,
+  Forall bp_alphabet prog -> store_inv st -> store_inv (final_store st prog).
+Proof. exact inv_reachable. Qed.
+
+Theorem C05_reachable_names : forall prog r b,
+  Forall bp_alphabet prog -> In (r, b) (bps (final_store store0 prog)) ->
+  NoDup (names b) /\ names b = uniquify (names b)
+  /\ length (funs b) = length (names b) /\ length (args b) = length (names b) /\ length (durs b) = length (names b)
+  /\ length (sm1 b) = length (names b) /\ length (sm2 b) = length (names b).
+Proof. exact reachable_names. Qed.
+
+(* 3. frame conditions of the name-addressed edits (single segment) *)
+Theorem C05_change_arg_frame : forall b n a v b',
+  Inv b -> bp_change_arg b n a v false = (b', None) ->
+  exists p f larg i,
+    name_idx n b = Some p /\ nth_error (funs b) p = Some f /\ nth_error (args b) p = Some larg /\
+    arg_index f a = Some i /\ (i < length larg)%nat /\
+    b' = set_args b (upd p (upd i v larg) (args b)).
+Proof. exact change_arg_frame. Qed.
+
+Theorem C05_change_arg_only_target : forall b n a v b',
+  Inv b -> bp_change_arg b n a v false = (b', None) ->
+  names b' = names b /\ funs b' = funs b /\ durs b' = durs b /\ sm1 b' = sm1 b /\ sm2 b' = sm2 b /\
+  am1 b' = am1 b /\ am2 b' = am2 b /\ sr b' = sr b /\
+  forall p, name_idx n b = Some p -> forall k, k <> p -> nth_error (args b') k = nth_error (args b) k.
+Proof. exact change_arg_only_target. Qed.
+
+Theorem C05_change_dur_frame : forall b n d b',
+  Inv b -> bp_change_dur b n d false = (b', None) ->
+  exists p q, d = VNum q /\ name_idx n b = Some p /\ b' = set_durs b (upd p (VNum q) (durs b)).
+Proof. exact change_dur_frame. Qed.
+
+Theorem C05_set_segmarker_frame : forall b n spec id b',
+  Inv b -> bp_set_segmarker b n spec id = (b', None) ->
+  exists p, name_idx n b = Some p /\
+    ((id = 1%Z /\ b' = set_sm1 b (upd p spec (sm1 b))) \/ (id = 2%Z /\ b' = set_sm2 b (upd p spec (sm2 b)))).
+Proof. exact set_segmarker_frame. Qed.
+
+Theorem C05_remove_segmarker_frame : forall b n id b',
+  Inv b -> bp_remove_segmarker b n id = (b', None) ->
+  exists p, name_idx n b = Some p /\
+    ((id = 1%Z /\ b' = set_sm1 b (upd p (0, 0)%Q (sm1 b))) \/ (id = 2%Z /\ b' = set_sm2 b (upd p (0, 0)%Q (sm2 b)))).
+Proof. exact remove_segmarker_frame. Qed.
+
+(* replaceeverywhere: exactly the segments with the same base name get the new duration *)
+Theorem C05_change_dur_everywhere : forall b n q b',
+  Inv b -> bp_change_dur b n (VNum q) true = (b', None) ->
+  names b' = names b /\ funs b' = funs b /\ args b' = args b /\ sm1 b' = sm1 b /\ sm2 b' = sm2 b /\
+  am1 b' = am1 b /\ am2 b' = am2 b /\ sr b' = sr b /\ length (durs b') = length (durs b) /\
+  forall k m, nth_error (names b) k = Some m ->
+    nth_error (durs b') k = (if str_eqb (basename m) (basename n) then Some (VNum q) else nth_error (durs b) k).
+Proof. exact change_dur_everywhere. Qed.
+
+(* 4. rejected single-segment edits leave the blueprint unchanged *)
+Theorem C05_reject_atomic : forall b,
+  (forall n a v b' e, bp_change_arg b n a v false = (b', Some e) -> b' = b) /\
+  (forall n d b' e, bp_change_dur b n d false = (b', Some e) -> b' = b) /\
+  (forall n s id b' e, bp_set_segmarker b n s id = (b', Some e) -> b' = b) /\
+  (forall n id b' e, bp_remove_segmarker b n id = (b', Some e) -> b' = b) /\
+  (forall pos f a d nm b' e, bp_insert b pos f a d nm = (b', Some e) -> b' = b) /\
+  (forall n b' e, bp_remove b n = (b', Some e) -> b' = b).
+Proof. exact reject_atomic. Qed.
+
+(* 5. what is rejected *)
+Theorem C05_rejections : forall b n,
+  name_idx n b = None ->
+  (forall a v, snd (bp_change_arg b n a v false) <> None) /\
+  (forall d, snd (bp_change_dur b n d false) <> None) /\
+  (forall s id, snd (bp_set_segmarker b n s id) <> None) /\
+  (forall id, snd (bp_remove_segmarker b n id) <> None) /\
+  snd (bp_remove b n) <> None.
+Proof. exact rejections_unknown_name. Qed.
+
+Theorem C05_bad_durations : forall b n,
+  name_idx n b <> None ->
+  (forall q, (q <= 0)%Q -> snd (bp_change_dur b n (VNum q) false) <> None) /\
+  (forall q s, sr b = VNum s -> (q * s < 1)%Q -> snd (bp_change_dur b n (VNum q) false) <> None) /\
+  (forall ev, snd (bp_change_dur b n VNone ev) <> None) /\
+  (forall ev x, snd (bp_change_dur b n (VStr x) ev) <> None).
+Proof. exact bad_durations. Qed.
+
+Theorem C05_unknown_argument : forall b n p f x v,
+  name_idx n b = Some p -> nth_error (funs b) p = Some f -> arg_index f (AStr x) = None ->
+  snd (bp_change_arg b n (AStr x) v false) <> None.
+Proof. exact unknown_argument. Qed.
+
+(* 6. the same edits issued through an Element act on that channel's blueprint only *)
+Theorem C05_element_delegates : forall e c ch b n a v ev,
+  el_lookup e c = Some ch -> ckind ch = KBp b ->
+  el_change_arg e c n a v ev =
+    (el_set e c (mkCh (KBp (fst (bp_change_arg b n a v ev))) (cflags ch)), snd (bp_change_arg b n a v ev)).
+Proof. exact element_delegates_arg. Qed.
+
+Theorem C05_element_other_channels : forall e c c' n a v ev,
+  chan_eqb c' c = false ->
+  el_lookup (fst (el_change_arg e c n a v ev)) c' = el_lookup e c' /\
+  el_lookup (fst (el_change_dur e c n v ev)) c' = el_lookup e c'.
+Proof. exact element_other_channels. Qed.
+
+(* non-vacuity: a concrete history meets the hypotheses and exercises the renaming *)
+Example C05_example :
+  let prog := [BNew 0; BInsert 0 (-1) Framp [VNum 0; VNum 1] (VNum 1) None;
+               BInsert 0 0 Framp [VNum 0; VNum 1] (VNum 1) (Some (S_ "a1b"));
+               BInsert 0 1 Fua [VNum 1] (VNum 1) (Some (S_ "ramp")); BCopy 0 1; BAdd 0 1 2] in
+  Forall bp_alphabet prog /\
+  (exists b, In (2%nat, b) (bps (final_store store0 prog)) /\
+     names b = [S_ "a1b"; S_ "ramp"; S_ "ramp2"; S_ "a1b2"; S_ "ramp3"; S_ "ramp4"]).
+Proof. exact example_history. Qed.
+
 Print Assumptions C05_names_distinct.
+Print Assumptions C05_kth_occurrence.
+Print Assumptions C05_inv_empty.
+Print Assumptions C05_inv_reachable.
+Print Assumptions C05_reachable_names.
+Print Assumptions C05_change_arg_frame.
+Print Assumptions C05_change_arg_only_target.
+Print Assumptions C05_change_dur_frame.
+Print Assumptions C05_set_segmarker_frame.
+Print Assumptions C05_remove_segmarker_frame.
+Print Assumptions C05_change_dur_everywhere.
+Print Assumptions C05_reject_atomic.
+Print Assumptions C05_rejections.
+Print Assumptions C05_bad_durations.
+Print Assumptions C05_unknown_argument.
+Print Assumptions C05_element_delegates.
+Print Assumptions C05_element_other_channels.
